@@ -57,6 +57,10 @@ DECKS = [
     # a one-sheet cone (cone + auxiliary plane) in a cell with TRCL and in a filled universe: labels of generated surfaces
     ('cone', 'cone deck\n1 1 -2.7 -1 -2 trcl=(0 0 5) imp:n=1\n2 0 -3 fill=1 (0 0 -4) imp:n=1\n3 0 #1 #2 -4 imp:n=1\n4 0 4 imp:n=0\n'
              '11 2 -1.0 -1 u=1 imp:n=1\n12 0 1 u=1 imp:n=1\n\n1 kz 0 1 1\n2 pz 3\n3 s 0 0 -6 2\n4 so 20\n\nm1 13027 1\nm2 8016 1\n', []),
+    # importances for two particle types on some cards, for one on others (per-card bookkeeping of particle types)
+    ('coupled', 'coupled deck\n1 0 -1 fill=1 imp:n,p=1\n2 0 1 imp:n,p=0\n11 1 -2.7 -11 u=1 imp:n,p=2\n12 2 -1.0 11 u=1 imp:p=3\n\n'
+                '1 so 4\n11 px 0\n\nm1 13027 1\nm2 8016 1\n', []),
+    ('neutrononly', 'neutron deck\n1 1 -2.7 -1 imp:n=1\n2 0 1 imp:n=0\n\n1 so 4\n\nm1 13027 1\n', []),
     # 6 a deck that raises (unknown surface type)
     ('raises', 'bad deck\n1 0 -1 imp:n=1\n2 0 1 imp:n=0\n\n1 qq 5\n\n', []),
 ]
